@@ -40,7 +40,7 @@ def hseq_case(hook, opens):
 
 class C20(Spec):
     pid = "C20"
-    groups = ["vui"]
+    groups = ["vui", "vpub"]
     title = "The media hook receives exactly the configured argv, substituted argument-wise"
     oracle_filter = {"equals_model"}
     rule = ("hook configurations: program names incl. ones that equal a placeholder or contain a space, 0..5 further arguments "
@@ -50,7 +50,8 @@ class C20(Spec):
             "runs the configured program (a recorder found through PATH) and the recorded argv/stdin must equal Hook.hook_command; also "
             "SEQUENCES of 2..4 opens with different links and media types in one session under one installed configuration. REAL ITEMS: posts, "
             "actors and activities built by pub's constructors, whose media / attachment / icon / banner URLs carry credentials, ports, queries, "
-            "fragments, spaces and $(), opened with o / p / b / number+Enter: the link the hook received equals the Pub model's link. "
+            "fragments, spaces and $(), opened with o / p / b / number+Enter under a hook with %url and the media-type placeholders: the link the hook received equals the Pub model's link; "
+            "and WHICH link and media type an item hands over (Post.Media / SelectLink / ProfilePic / Banner over candidate lists, post kinds, missing and malformed media types) equals the Pub model. "
             "non-trivial = the hook has a placeholder argument or an embedded look-alike.")
     assumptions = ["the recorder reports argv[0] by base name (exec resolves it through PATH)",
                    "links and arguments contain no NUL byte (exec rejects those)",
@@ -118,7 +119,7 @@ class C20(Spec):
             pcases.append(c07.uipub_case(rng, keys, preload=rng.choice((0, 1, 2))))
         penv = dict(env)
         penv["VERIF_CASE_TIMEOUT"] = "60"
-        pb = Batch("c20-items", pcases, config="[media]\nhook = [\"vdump\", \"%url\"]\n", env=penv, timeout=900,
+        pb = Batch("c20-items", pcases, config="[media]\nhook = [\"vdump\", \"%url\", \"%mimetype\", \"%supertype/%subtype\", \"%subtype\"]\n", env=penv, timeout=900,
                    correspondence="the link the hook received for o / p / b / number+Enter on real items == Pub model's link")
         pb.parallel = False
         saved = self.oracle_filter
@@ -127,9 +128,23 @@ class C20(Spec):
             runner.run_batches(self, scratch, binary, [pb], report)
         finally:
             self.oracle_filter = saved
+        # WHICH link and WHICH media type an item hands to the hook (Post.Media / SelectLink, Actor.ProfilePic / Banner): candidates
+        # with matching / other / missing / malformed media types, post kinds Audio / Video / Image / Note; compared with the Pub model
+        import random
+        import c12
+        c12.SPEC.batches(random.Random(rng.randrange(1 << 30)), tier)
+        mcases = [c for c in c12.SPEC.xitems if c.op == "itemx"][-(150 if tier == "quick" else 8000):]
+        mb = Batch("c20-media", mcases, env={"VERIF_CASE_TIMEOUT": "20"}, timeout=900,
+                   correspondence="link and media type handed to the hook by Post.Media / SelectLink / ProfilePic / Banner == Pub model")
+        saved = (self.oracle_filter, self.no_compare_ops)
+        self.oracle_filter = {"links_equal_model"}      # and the dumped fields, texts and selections are compared token by token
+        try:
+            runner.run_batches(self, scratch, binary, [mb], report)
+        finally:
+            self.oracle_filter, self.no_compare_ops = saved
 
     def nontrivial(self, case, res):
-        if case.op == "uipub":
+        if case.op in ("uipub", "itemx"):
             return True
         if case.op == "hookseq":
             return any("%" in h for h in case.meta["hook"][1:]) and len(case.meta["opens"]) >= 2
